@@ -208,7 +208,12 @@ impl BlockScope {
         let binders = candidates.iter().try_fold(
             im::HashMap::<VarName, DefId>::new(),
             |binders, candidate| {
-                candidate.binder().binders(&resolver.bitter).into_iter().try_fold(
+                // The binder map iterates in hash order; visit its names in source order so
+                // that the reported duplicate does not depend on the process.
+                let mut named =
+                    candidate.binder().binders(&resolver.bitter).into_iter().collect::<Vec<_>>();
+                named.sort_by_key(|(_, definition)| *definition);
+                named.into_iter().try_fold(
                     binders,
                     |binders, (name, definition)| -> Result<_> {
                         if let Some(previous) = binders.get(&name) {
